@@ -11,7 +11,7 @@ def run(ctx):
     n = 1 if ctx.quick() else 6
     k1 = [v for v in S.HP_VARIANTS if "_k1" in v]
     k2 = [v for v in S.HP_VARIANTS if "_k1" not in v] + ["dhp_k4", "dhp_k2"]
-    st = [("dfs", 800 if ctx.quick() else 40000, 1 if ctx.quick() else 2), ("pct", 80 if ctx.quick() else 2000, 0), ("random", 40 if ctx.quick() else 1000, 0)]
+    st = [("dfs", 500 if ctx.quick() else 40000, 1 if ctx.quick() else 2), ("pct", 60 if ctx.quick() else 2000, 0), ("random", 20 if ctx.quick() else 1000, 0)]
     # retire counts below, at and above the retired-array capacity (K*T+1), threads exiting with pending retired objects
     extra_progs = ["retn:2|retn:3", "retn:4,scan|retn:5,detach,attach,retn:1", "prot:0:0,retn:7,deref:0|swapn:0:4,detach|retn:9;scan"]
     jobs = make_jobs(ctx, "smr", k1, S.K1_PROGRAMS[:2] + extra_progs + [S.gen_program(ctx.rng, 1) for _ in range(n)], strat=st) + \
